@@ -22,7 +22,6 @@ RULE = ('configurations: 1..3 resources x {0,1,5,200} rows x format {csv,json} x
 ASSUMPTIONS = [
     'an unparseable / empty descriptor counts as "not present" (the statement says parseable)',
     'kill = SIGKILL semantics; copies are performed in >=3 chunks so that mid-copy is a crash point',
-    'add_filehash_to_path is not part of this property',
 ]
 REQUIRED_COUNTERS = ['crash_points_executed', 'descriptors_found_and_verified']
 CASE_TIMEOUT = 900
@@ -41,6 +40,12 @@ def gen_cases(tier, seed):
                     continue        # one large-last-resource configuration (long copies) is enough
                 i += 1
                 yield {'family': fmt, 'sizes': sz, 'format': fmt, 'pretty': pretty, 'idx': i, 'seed': seed, 'tier': tier}
+    # add_filehash_to_path (with and without the resource-hash counter): the listed path must be the written one
+    for fmt in ('csv', 'json'):
+        for nohash in (False, True):
+            i += 1
+            yield {'family': fmt, 'sizes': [5, 1], 'format': fmt, 'pretty': True, 'idx': i, 'seed': seed, 'tier': tier,
+                   'filehash': True, 'no_resource_hash': nohash}
 
 
 def run_case(case):
@@ -50,7 +55,8 @@ def run_case(case):
     cov = {'crash_event_kind': {}}
     viol = []
     scratch = os.getcwd()
-    cfg = {'sizes': case['sizes'], 'format': case['format'], 'pretty': case['pretty']}
+    cfg = {'sizes': case['sizes'], 'format': case['format'], 'pretty': case['pretty'],
+           'add_filehash_to_path': bool(case.get('filehash')), 'no_resource_hash': bool(case.get('no_resource_hash'))}
     F = [{'name': 'id', 'type': 'integer'}, {'name': 't', 'type': 'string'}, {'name': 'n', 'type': 'number'}]
     tables = [[{'id': r * 1000 + i, 't': 'żółć-%d "q", x' % i, 'n': 1.5 * i} for i in range(n)]
               for r, n in enumerate(case['sizes'])]
@@ -63,7 +69,12 @@ def run_case(case):
 
     def run_dump(out):
         steps = [lab.source('res%d' % i, F, t) for i, t in enumerate(tables)]
-        steps.append(d.dump_to_path(out, format=case['format'], pretty_descriptor=case['pretty']))
+        kw = {}
+        if case.get('filehash'):
+            kw['add_filehash_to_path'] = True
+        if case.get('no_resource_hash'):
+            kw['counters'] = {'resource-hash': None}
+        steps.append(d.dump_to_path(out, format=case['format'], pretty_descriptor=case['pretty'], **kw))
         o = lab.run(steps, validate=True)
         return {'ok': o.ok, 'error': None if o.ok else o.errstr()}
 
@@ -81,7 +92,7 @@ def run_case(case):
             if not os.path.isfile(fp):
                 return 'parseable descriptor lists %r which does not exist' % rd.get('path')
             data = open(fp, 'rb').read()
-            if rd.get('bytes') != len(data) or rd.get('hash') != iolab.md5(data):
+            if rd.get('bytes') != len(data) or (rd.get('hash') is not None and rd.get('hash') != iolab.md5(data)):
                 return 'parseable descriptor lists %r with bytes=%r but the file has %d bytes' % (
                     rd.get('path'), rd.get('bytes'), len(data))
         return None
@@ -176,7 +187,7 @@ def run_case(case):
             if rd.get('bytes') != len(data):
                 add('listed_file_size', '%s: %r recorded bytes=%r, file has %d' % (what, p, rd.get('bytes'), len(data)),
                     'listed_file_size')
-            elif rd.get('hash') != iolab.md5(data):
+            elif rd.get('hash') is not None and rd.get('hash') != iolab.md5(data):
                 add('listed_file_hash', '%s: %r recorded hash differs from the file' % (what, p), 'listed_file_hash')
         if len(desc.get('resources', [])) != len(tables):
             add('descriptor_resources', '%s: descriptor lists %d resources of %d' %
